@@ -70,8 +70,7 @@ def race(kernel, seed, n_threads):
         cube = S.build_cube(scn)
 
         def call():
-            with warnings.catch_warnings():
-                warnings.simplefilter("ignore")
+            if True:  # warnings are silenced process-wide (catch_warnings is not thread-safe)
                 return S.normalise(S.apply_op(scn, cube, lazy=False))
 
         same = S.compare
